@@ -748,8 +748,10 @@ func runSched(c caseIn) *caseOut {
 					}
 					cp.Status = repos.HTTPDomainMappingStatus(op.St)
 					cp.ExpiresAt = 0
-					if op.Exp != 0 {
+					if op.Exp > 0 {
 						cp.ExpiresAt = r.start + int64(op.Exp-t0)
+					} else if op.Exp < 0 {
+						cp.ExpiresAt = int64(op.Exp) // a negative instant as such (what the adapter's now+ttl wraps to)
 					}
 					cp.TargetHost, cp.TargetPort = fmt.Sprintf("h%d", op.Tgt), op.Tgt
 					if err := repo.UpdateMapping(ctx, &cp); err != nil {
@@ -882,8 +884,10 @@ func runSched(c caseIn) *caseOut {
 				continue
 			}
 			exp := 0
-			if m.ExpiresAt != 0 {
+			if m.ExpiresAt > 0 {
 				exp = t0 + int(m.ExpiresAt-r.start)
+			} else if m.ExpiresAt < 0 {
+				exp = int(m.ExpiresAt)
 			}
 			if m.ClientID <= 0 {
 				r.fail("record-with-unbound-client", fmt.Sprintf("record %s is stored with client id %d", m.ID, m.ClientID))
